@@ -971,6 +971,8 @@ def platform_part(run, prop, tier):
     for variant in ("linux-x64", "linux-a64", "linux-arm", "windows-x64", "windows-a64", "macos-a64", "macos-x64"):
         offs = (64, 4090) if tier == "quick" else (0, 64, 2048, 4084, 4090, 4093)
         for off in offs:
+            if variant == "linux-arm":
+                off &= ~3     # 32-bit ARM on a 64-bit host: A32 entries only (the Thumb path folds the address into 32 bits)
             for installs in (["jump"], ["bool1"], ["jump", "bool0"], ["bool1", "jump", "jump"]):
                 for fake in ((0x7f1234567000, 0) if variant.endswith("x64") else (0x7f1234567000,)):
                     # fake = 0: a replacement close to the trampoline (x86-64 short form), taken inside the arena
